@@ -581,6 +581,8 @@ impl ContinuityStreamCache {
 
         let mut backscan_bytes = INITIAL_BACKSCAN_BYTES;
         loop {
+            #[cfg(rip_verif)]
+            rip_kernel::verif::point("scan.iter", "cache.last_message_backscan");
             let mut file = File::open(&sidecar_path)?;
             let parsed = scan_sidecar_backwards(
                 &mut file,
@@ -777,6 +779,8 @@ impl ContinuityStreamCache {
         let mut max_bytes: usize = REVERSE_SCAN_CHUNK_BYTES * 2;
         let max_cap: usize = 4 * 1024 * 1024;
         loop {
+            #[cfg(rip_verif)]
+            rip_kernel::verif::point("scan.iter", "cache.last_seq");
             let tail = scan_sidecar_backwards(
                 &mut file,
                 continuity_id,
@@ -943,6 +947,8 @@ impl ContinuityStreamCache {
             let mut saw_anchor = false;
 
             loop {
+                #[cfg(rip_verif)]
+                rip_kernel::verif::point("scan.iter", "cache.window_full.a");
                 let mut buf = Vec::new();
                 let n = reader.read_until(b'\n', &mut buf)?;
                 if n == 0 {
@@ -1050,6 +1056,8 @@ impl ContinuityStreamCache {
             let mut saw_anchor = false;
 
             loop {
+                #[cfg(rip_verif)]
+                rip_kernel::verif::point("scan.iter", "cache.window_mr.a");
                 let mut buf = Vec::new();
                 let n = reader.read_until(b'\n', &mut buf)?;
                 if n == 0 {
@@ -1106,6 +1114,8 @@ impl ContinuityStreamCache {
         // Backward scan from the boundary, collecting only what we need (O(k) in message density).
         let mut backscan_bytes = INITIAL_BACKSCAN_BYTES.min(MAX_BACKSCAN_BYTES);
         loop {
+            #[cfg(rip_verif)]
+            rip_kernel::verif::point("scan.iter", "cache.window_mr.b");
             let mut file = File::open(&sidecar_path)?;
             let scan = scan_sidecar_backwards(
                 &mut file,
@@ -1322,6 +1332,8 @@ impl ContinuityStreamCache {
 
         let mut wrote_any = false;
         loop {
+            #[cfg(rip_verif)]
+            rip_kernel::verif::point("scan.iter", "cache.rebuild_comp");
             let mut buf = Vec::new();
             let n = reader.read_until(b'\n', &mut buf)?;
             if n == 0 {
@@ -1379,6 +1391,8 @@ impl ContinuityStreamCache {
 
         let mut wrote_any = false;
         loop {
+            #[cfg(rip_verif)]
+            rip_kernel::verif::point("scan.iter", "cache.rebuild_mr");
             let mut buf = Vec::new();
             let n = reader.read_until(b'\n', &mut buf)?;
             if n == 0 {
@@ -1468,6 +1482,8 @@ impl ContinuityStreamCache {
         let mut cur_offset = start_offset;
 
         loop {
+            #[cfg(rip_verif)]
+            rip_kernel::verif::point("scan.iter", "cache.boundary");
             let mut buf = Vec::new();
             let n = reader.read_until(b'\n', &mut buf)?;
             if n == 0 {
@@ -1517,6 +1533,8 @@ impl ContinuityStreamCache {
         let mut start_seq: u64 = 0;
         let mut backscan_bytes = INITIAL_BACKSCAN_BYTES.min(MAX_BACKSCAN_BYTES);
         loop {
+            #[cfg(rip_verif)]
+            rip_kernel::verif::point("scan.iter", "cache.window_cut.a");
             let mut file = File::open(sidecar_path)?;
             let scan = scan_sidecar_backwards(
                 &mut file,
@@ -1556,6 +1574,8 @@ impl ContinuityStreamCache {
 
         let mut events: Vec<Event> = Vec::new();
         loop {
+            #[cfg(rip_verif)]
+            rip_kernel::verif::point("scan.iter", "cache.window_cut.b");
             if cur_offset >= boundary_pos {
                 break;
             }
@@ -1627,6 +1647,8 @@ fn rebuild_messages_runs_seek_index_best_effort_v1(
     let mut offset: u64 = 0;
     let mut wrote_any = false;
     loop {
+        #[cfg(rip_verif)]
+        rip_kernel::verif::point("scan.iter", "cache.rebuild_mr_seek");
         let mut buf = Vec::new();
         let n = reader.read_until(b'\n', &mut buf)?;
         if n == 0 {
